@@ -650,7 +650,7 @@ func c17EnumerateTCP(sh *evidence.Shard) {
 	}
 	p.Alphabet = map[string]any{
 		"port_spellings": "every recognised template x 3 hosts x ports {0,65535,65536,65616,131152,-1,0443,+80,000080,4294967376} (nil filter, unsplit stream): the port string must come out as it went in",
-		"templates": names,
+		"templates":      names,
 		"splits": fmt.Sprintf("all 2^(n-1) chunkings for streams of <= %d bytes; longer streams: every chunking with <= %d cuts (3 primary configurations) / <= %d cuts (the other hooked configurations) over {1..8, each structural boundary -1/0/+1, n-1}; the header-over-limit template: <= 1 / 0 cuts; thorough tier additionally: every <= 2-cut chunking over every offset of the first and the last 64 bytes",
 			fullMax, cutsPrimary, cutsOther),
 		"deadline":    "fires at the k-th Read call for every k the sniffer reaches (pure timeout, or delivered together with that read's chunk), or never",
